@@ -445,7 +445,7 @@ def write_evidence(prop, tier, seed, lean, total, distinct, ops, types, samples,
         "property_id": prop, "tier": tier if tier in ("quick", "thorough") else "quick", "seed": seed, "level": "proof",
         "coverage": {
             "obligations": max(1, len(lean["theorems"])), "discharged": lean["discharged"],
-            "checker_cmd": f"cd lean && lake build BvaProps.{prop} && lake env lean <generated #print axioms file>" + (" && lake env leanchecker BvaProps." + prop if tier == "thorough" else ""),
+            "checker_cmd": "cd lean && lake build " + " ".join(f"BvaProps.{m}" for m in [prop] + SUPPLEMENT.get(prop, [])) + " && lake env lean <generated #print axioms file>" + ("".join(" && lake env leanchecker BvaProps." + m for m in [prop] + SUPPLEMENT.get(prop, [])) if tier == "thorough" else ""),
             "trusted_base": TRUSTED_BASE,
             "theorems": lean.get("axioms", {}),
             "what_is_proved_and_what_is_not": claim,
